@@ -69,6 +69,10 @@ def mapPick (tr : Trace κ σ) : Option (κ × σ) :=
   | some r => lookup tr r.chain r.iter
   | none => lookup tr 0 0
 
+/-- all entries joint-likelihood mode may legitimately report if ties were broken differently -/
+def mapCandidates (tr : Trace κ σ) : List (κ × σ) :=
+  (entries tr).filter fun e => (entries tr).all fun e' => !decide (e.2 < e'.2)
+
 /-- a value of the `topologies` dict -/
 structure Row (κ σ : Type) where
   key : κ
